@@ -171,6 +171,36 @@ def run(chk):
                         why = "unknown field %r was not re-emitted unchanged" % k
         if why:
             chk.violate({"kind": "property", "case": lib.show_case(c), "impl": i[:1500], "explanation": why})
+    # Paragraph.Set / Paragraph.Update on their own: receiver and other built by Set from key/value pairs with repeated and
+    # shared keys; the expectation is computed here from the definition (receiver's fields first, other's new fields after,
+    # other's values win), and the harness also checks that Update leaves its operands alone and that results share no state
+    uc, uw = [], []
+    KEYS = [b"A", b"B", b"C", b"Package", b"X-1", b"a", b"Source", b"Zz-Later"]
+    for _ in range(chk.n(1500, 30000)):
+        np_, nq = rng.randrange(0, 6), rng.randrange(0, 6)
+        pairs = [(rng.choice(KEYS), rng.choice([b"", b"1", b"two words", b"v%d" % rng.randrange(9)])) for _ in range(np_ + nq)]
+        args = [np_]
+        for k, v in pairs:
+            args += [k, v]
+        uc.append(("pupdate", args))
+        def build(kvs):
+            order, vals = [], {}
+            for k, v in kvs:
+                if k not in vals:
+                    order.append(k)
+                vals[k] = v
+            return order, vals
+        po, pv_ = build(pairs[:np_]); qo, qv = build(pairs[np_:])
+        ro = po + [k for k in qo if k not in pv_]
+        rv = dict(pv_); rv.update(qv)
+        sl = lambda items: "[ " + " ".join(items) + " ]" if items else "[]"
+        uw.append("( %s %s %d )" % (sl([hx(k) for k in ro]), sl([hx(rv[k]) for k in ro]), len(rv)))
+    ui_, um_ = chk.run_both(uc)
+    chk.compare("paragraph-set-update", uc, ui_, um_, nontrivial=lambda c, r: True)
+    for c, i, w in zip(uc, ui_, uw):
+        if i != w:
+            chk.violate({"kind": "property", "case": lib.show_case(c), "impl": i[:600], "expected": w,
+                         "explanation": "Paragraph.Update did not give the receiver's fields followed by the other's new fields with the other's values winning, or changed its operands"})
     # optional fields held through POINTERS (nil = absent): marshalling never panics, a nil pointer writes nothing, a
     # non-nil one writes the value's own rendering (the decoder does not fill pointer fields, so no round trip here)
     pc, pw = [], []
